@@ -622,6 +622,12 @@ def gen_ops(rnd, world, dist):
         if cands:
             i = rnd.choice(cands)
             dist['malformed-op'] += 1
-            return [rnd.choice((('set_add', rnd.choice(list(SETS)), i), ('rack', 'high', 'append', i, None),
-                                ('single', 'ship', i), ('rack', 'mid', 'place', i, 0)))]
+            charged = [m for m in on_fit(('ModuleHigh', 'ModuleMid', 'ModuleLow')) if world.items[m].charge is not None]
+            alts = [('set_add', rnd.choice(list(SETS)), i), ('rack', 'high', 'append', i, None),
+                    ('single', 'ship', i), ('rack', 'mid', 'place', i, 0)]
+            if len(charged) >= 2:
+                # a charge that sits in another module: rejected, the module keeps (and keeps loaded) its own charge
+                m1, m2 = rnd.sample(charged, 2)
+                alts += [('charge', m2, world.ident(world.items[m1].charge))] * 3
+            return [rnd.choice(alts)]
     return gen_ops(rnd, world, dist)
